@@ -44,6 +44,23 @@ pub fn ext_zero(s: &str) -> Ext<String> {
     r
 }
 
+macro_rules! probe {
+    ($name:ident) => {
+        /// zero-length probe placed at the start of a rule body: records that the body ran
+        pub fn $name(s: &str) -> Ext<String> {
+            let r = Ok((String::new(), 0));
+            log_ext(stringify!($name), s, &r);
+            r
+        }
+    };
+}
+probe!(ext_probe_0);
+probe!(ext_probe_1);
+probe!(ext_probe_2);
+probe!(ext_probe_3);
+probe!(ext_probe_4);
+probe!(ext_probe_5);
+
 pub fn ext_fail(s: &str) -> Ext<String> {
     let r = Err("always fails");
     log_ext("ext_fail", s, &r);
